@@ -133,6 +133,32 @@ func runRestRead(c fw.Case) fw.Result {
 		}
 		return de == nil
 	}
+	// differs: the client's answer is compared with the direct answer taken
+	// immediately before AND after it; only a client answer that differs from
+	// two equal direct answers, four times in a row, counts (state changes
+	// between two calls are not a disagreement)
+	differs := func(direct func() string, client func() string) (bool, string, string) {
+		var a, c string
+		for try := 0; try < 4; try++ {
+			a = direct()
+			c = client()
+			b := direct()
+			if a != b {
+				r.Count("unstable_reads", 1)
+				quiesce()
+				try--
+				if r.Counters["unstable_reads"] > 200 {
+					return false, a, c
+				}
+				continue
+			}
+			if c == a {
+				return false, a, c
+			}
+			quiesce()
+		}
+		return true, a, c
+	}
 	mutate := []string{"stop", "start", "restart", "scale", "none", "none"}
 	var prevProject *types.ProjectState
 	prevProjectCanon := ""
@@ -142,12 +168,8 @@ func runRestRead(c fw.Case) fw.Result {
 		ds, de := env.Runner.GetProcessesState()
 		cs, ce := cl.GetProcessesState()
 		if cmpErr("GetProcessesState", "", de, ce) && normStates(ds) != normStates(cs) {
-			// a state may legitimately change between the two calls: re-check once after quiescence
-			quiesce()
-			ds, _ = env.Runner.GetProcessesState()
-			cs, _ = cl.GetProcessesState()
-			if normStates(ds) != normStates(cs) {
-				r.Add("C19", "states-differ", "GetProcessesState: client %s, runner %s", normStates(cs), normStates(ds))
+			if bad, a, c := differs(func() string { x, _ := env.Runner.GetProcessesState(); return normStates(x) }, func() string { x, _ := cl.GetProcessesState(); return normStates(x) }); bad {
+				r.Add("C19", "states-differ", "GetProcessesState: client %s, runner %s", c, a)
 			}
 		}
 		for _, n := range names() {
@@ -163,10 +185,17 @@ func runRestRead(c fw.Case) fw.Result {
 				c1, e2 = cl.GetProcessState(n)
 			}
 			if cmpErr("GetProcessState", n, e1, e2) && canon(normState(*d1)) != canon(normState(*c1)) {
-				d1, _ = env.Runner.GetProcessState(n)
-				c1, _ = cl.GetProcessState(n)
-				if d1 != nil && c1 != nil && canon(normState(*d1)) != canon(normState(*c1)) {
-					r.Add("C19", "state-differs", "GetProcessState(%s): client %s, runner %s", n, canon(normState(*c1)), canon(normState(*d1)))
+				one := func(get func(string) (*types.ProcessState, error)) func() string {
+					return func() string {
+						x, err := get(n)
+						if err != nil || x == nil {
+							return "error"
+						}
+						return canon(normState(*x))
+					}
+				}
+				if bad, a, c := differs(one(env.Runner.GetProcessState), one(cl.GetProcessState)); bad {
+					r.Add("C19", "state-differs", "GetProcessState(%s): client %s, runner %s", n, c, a)
 				}
 			}
 			d2, e3 := env.Runner.GetProcessInfo(n)
@@ -207,7 +236,20 @@ func runRestRead(c fw.Case) fw.Result {
 				}
 				_ = json.Unmarshal([]byte(body), &got)
 				if status != 200 || !eqStrs(got.Logs, dl) {
-					r.Add("C19", "logs-differ", "GET /process/logs/%s/%d/%d: status %d, %d lines; direct call returns %d lines", n, off, lim, status, len(got.Logs), len(dl))
+					bad, _, _ := differs(func() string { x, _ := env.Runner.GetProcessLog(n, off, lim); return canon(append([]string{}, x...)) }, func() string {
+						st, b := rawReq(api, "GET", fmt.Sprintf("/process/logs/%s/%d/%d", n, off, lim), "")
+						var g struct {
+							Logs []string `json:"logs"`
+						}
+						_ = json.Unmarshal([]byte(b), &g)
+						if st != 200 {
+							return fmt.Sprint("status ", st)
+						}
+						return canon(append([]string{}, g.Logs...))
+					})
+					if bad {
+						r.Add("C19", "logs-differ", "GET /process/logs/%s/%d/%d: status %d, %d lines; direct call returns %d lines", n, off, lim, status, len(got.Logs), len(dl))
+					}
 				}
 			}
 		}
@@ -215,7 +257,13 @@ func runRestRead(c fw.Case) fw.Result {
 		dp, e8 := env.Runner.GetProjectState(withMem)
 		cp, e9 := cl.GetProjectState(withMem)
 		if cmpErr("GetProjectState", "", e8, e9) {
+			stillDiffers := false
 			if normProject(dp) != normProject(cp) {
+				var a, c string
+				stillDiffers, a, c = differs(func() string { x, _ := env.Runner.GetProjectState(withMem); return normProject(x) }, func() string { x, _ := cl.GetProjectState(withMem); return normProject(x) })
+				_, _ = a, c
+			}
+			if stillDiffers {
 				r.Add("C19", "project-state-differs", "GetProjectState: client %s, runner %s", normProject(cp), normProject(dp))
 			}
 			if (dp.MemoryState != nil) != (cp.MemoryState != nil) {
